@@ -103,9 +103,29 @@ Definition tcontains (m : tmap) (k : K) : bool := existsb (fun kv => eqk (fst kv
 Definition tput (m : tmap) (k : K) (v : tvalue) : tmap := filter (fun kv => negb (eqk (fst kv) k)) m ++ [(k, v)].
 Definition tremove (m : tmap) (ks : list K) : tmap := filter (fun kv => negb (existsb (eqk (fst kv)) ks)) m.
 Definition tsize (m : tmap) : Z := Z.of_nat (length m).
+(* map:merge over the entries of the operand maps in order; policy 0 use-first | 1 use-last | 2 reject | 3 combine;
+   None = FOJS0003 *)
+Fixpoint treplace (m : tmap) (k : K) (f : tvalue -> tvalue) : tmap :=
+  match m with [] => [] | (k', v) :: r => if eqk k' k then (k', f v) :: r else (k', v) :: treplace r k f end.
+Definition tmerge_one (p : Z) (items : tmap) (kv : K * tvalue) : option tmap :=
+  let '(k, v) := kv in
+  match tlookup items k with
+  | None => Some (items ++ [(k, v)])
+  | Some _ =>
+    if p =? 0 then Some items
+    else if p =? 1 then Some (filter (fun x => negb (eqk (fst x) k)) items ++ [(k, v)])
+    else if p =? 2 then None
+    else Some (treplace items k (fun old => old ++ v))
+  end.
+Fixpoint tmerge_fold (p : Z) (items : tmap) (l : list (K * tvalue)) : option tmap :=
+  match l with
+  | [] => Some items
+  | kv :: r => match tmerge_one p items kv with Some i' => tmerge_fold p i' r | None => None end
+  end.
+Definition tmerge (p : Z) (ms : list tmap) : option tmap := tmerge_fold p [] (concat ms).
 (* no two entries have the same key *)
 Fixpoint twf (m : tmap) : Prop :=
   match m with [] => True | (k, _) :: r => (forall kv, In kv r -> eqk k (fst kv) = false) /\ twf r end.
 End TMap.
 Arguments tlookup {K}. Arguments tget {K}. Arguments tcontains {K}. Arguments tput {K}. Arguments tremove {K}.
-Arguments tsize {K}. Arguments twf {K}.
+Arguments tsize {K}. Arguments twf {K}. Arguments tmerge {K}. Arguments tmerge_one {K}. Arguments tmerge_fold {K}. Arguments treplace {K}.
